@@ -94,6 +94,14 @@ func evalC06RT(c c06RT, o *Obs) error {
 	if c.Compress {
 		wantPub = serPub(x, y, 0)
 	}
+	// a decoded key belongs to the caller: wiping it must not show in a later decode of the same string
+	if d0, err := bchutil.DecodeWIF(s); err == nil {
+		d0.PrivKey.D.SetInt64(0)
+		d0.CompressPubKey = !d0.CompressPubKey
+		if d1, err := bchutil.DecodeWIF(s); err != nil || !bytes.Equal(pad32(d1.PrivKey.D), c.Scalar) || d1.CompressPubKey != c.Compress {
+			return fmt.Errorf("DecodeWIF(%q) returns key %x compress %v after the caller wiped the key returned by an earlier call", s, pad32(d1.PrivKey.D), d1.CompressPubKey)
+		}
+	}
 	for _, ww := range []*bchutil.WIF{w, d} {
 		if got := ww.SerializePubKey(); !bytes.Equal(got, wantPub) {
 			return fmt.Errorf("SerializePubKey (compress=%v) of scalar %x = %x, want %x", c.Compress, []byte(c.Scalar), got, wantPub)
@@ -142,6 +150,7 @@ type c06Hostile struct {
 	FlipBit   int      `json:"flip_bit"`
 	AllFlips  bool     `json:"all_flips"`
 	LeadOnes  int      `json:"lead_ones"`
+	Wrap      string   `json:"wrap"` // characters put before ("<x") or after (">x") the string
 	AliasPos  int      `json:"alias_pos"`
 	AliasKind int      `json:"alias_kind"`
 }
@@ -200,6 +209,14 @@ func evalC06Hostile(c c06Hostile, o *Obs) error {
 	if c.AliasPos >= 0 {
 		s = applyAlias(s, c.AliasPos, c.AliasKind)
 		o.Class("C06:character-alias")
+	}
+	if len(c.Wrap) > 1 {
+		if c.Wrap[0] == '<' {
+			s = c.Wrap[1:] + s
+		} else {
+			s = s + c.Wrap[1:]
+		}
+		o.Class("C06:junk-around-the-string")
 	}
 	if err := c06Judge(s, o); err != nil {
 		return err
@@ -269,6 +286,11 @@ func genC06Hostile(t *rapid.T) c06Hostile {
 		c.LeadOnes = rapid.IntRange(1, 3).Draw(t, "ones")
 	case 7:
 		c.AllFlips = rapid.IntRange(0, 3).Draw(t, "allflips") == 0
+		if rapid.Bool().Draw(t, "cmp") {
+			body = append(body, 1)
+		}
+	case 9:
+		c.Wrap = rapid.SampledFrom([]string{"< ", "> ", ">\n", "<\n", ">\t", ">\r\n", "<\u00a0", ">\x00", ">0", ">l", "<O"}).Draw(t, "wrap")
 		if rapid.Bool().Draw(t, "cmp") {
 			body = append(body, 1)
 		}
